@@ -29,6 +29,8 @@ fn classify<C: RgbColor>(c: C) -> u8 {
 }
 
 struct Target<C> {
+    ox: i32,
+    oy: i32,
     w: u32,
     h: u32,
     cells: Vec<u8>,
@@ -36,9 +38,9 @@ struct Target<C> {
     _c: std::marker::PhantomData<C>,
 }
 
-impl<C: RgbColor> OriginDimensions for Target<C> {
-    fn size(&self) -> Size {
-        Size::new(self.w, self.h)
+impl<C: RgbColor> Dimensions for Target<C> {
+    fn bounding_box(&self) -> embedded_graphics_core::primitives::Rectangle {
+        embedded_graphics_core::primitives::Rectangle::new(Point::new(self.ox, self.oy), Size::new(self.w, self.h))
     }
 }
 
@@ -47,6 +49,8 @@ impl<C: RgbColor> DrawTarget for Target<C> {
     type Error = Infallible;
     fn draw_iter<I: IntoIterator<Item = Pixel<C>>>(&mut self, pixels: I) -> Result<(), Infallible> {
         for Pixel(p, c) in pixels {
+            // cells are addressed relative to the target's own top-left corner
+            let p = Point::new(p.x.wrapping_sub(self.ox), p.y.wrapping_sub(self.oy));
             if p.x >= 0 && p.y >= 0 && (p.x as i64) < self.w as i64 && (p.y as i64) < self.h as i64 {
                 match self.probes.as_mut() {
                     Some(m) => {
@@ -62,8 +66,10 @@ impl<C: RgbColor> DrawTarget for Target<C> {
     }
 }
 
-fn run<C: RgbColor>(w: u32, h: u32, probes: Option<Vec<(i32, i32)>>) -> String {
+fn run<C: RgbColor>(w: u32, h: u32, probes: Option<Vec<(i32, i32)>>, ox: i32, oy: i32) -> String {
     let mut t: Target<C> = Target {
+        ox,
+        oy,
         w,
         h,
         cells: if probes.is_some() { Vec::new() } else { vec![0u8; (w as usize) * (h as usize)] },
@@ -99,10 +105,12 @@ pub fn timg(t: &mut Toks) -> String {
     let ct = t.n();
     let w = t.n() as u32;
     let h = t.n() as u32;
+    // optional: top-left corner of the target's bounding box
+    let (ox, oy) = if t.done() { (0, 0) } else { (t.n() as i32, t.n() as i32) };
     match ct {
-        0 => run::<Rgb565>(w, h, None),
-        1 => run::<Rgb666>(w, h, None),
-        _ => run::<Rgb888>(w, h, None),
+        0 => run::<Rgb565>(w, h, None, ox, oy),
+        1 => run::<Rgb666>(w, h, None, ox, oy),
+        _ => run::<Rgb888>(w, h, None, ox, oy),
     }
 }
 
@@ -115,8 +123,8 @@ pub fn timgp(t: &mut Toks) -> String {
     let n = t.n();
     let ps: Vec<(i32, i32)> = (0..n).map(|_| (t.n() as i32, t.n() as i32)).collect();
     match ct {
-        0 => run::<Rgb565>(w, h, Some(ps)),
-        1 => run::<Rgb666>(w, h, Some(ps)),
-        _ => run::<Rgb888>(w, h, Some(ps)),
+        0 => run::<Rgb565>(w, h, Some(ps), 0, 0),
+        1 => run::<Rgb666>(w, h, Some(ps), 0, 0),
+        _ => run::<Rgb888>(w, h, Some(ps), 0, 0),
     }
 }
